@@ -28,7 +28,7 @@ def describe(o):
     return (tuple(sorted(names)), fin, tuple(data), logged)
 
 
-def build(tree, layers_spec, limits=None, logx=False, logy=False, loglog=False, resolution=16, operation="sum", reuse=None):
+def build(tree, layers_spec, limits=None, logx=False, logy=False, loglog=False, resolution=16, operation="sum", reuse=None, call_opts=None):
     hooks = core_hooks()
     rec = Rec()
     hooks["ext"].update(np_hooks({
@@ -62,8 +62,11 @@ def build(tree, layers_spec, limits=None, logx=False, logy=False, loglog=False, 
     ci = tree.cls(LAYER_Q)
     ev0 = ModelEval(tree, tree.method(ci, "__init__"), {}, hooks)
     layers = []
-    for tag, op in layers_spec:
-        layers.append(ev0.instantiate(ci, [ArrTok(tag, "g", (5,), tag.lower())], {"operation": op} if op else {}, None))
+    for tag, op, *more in layers_spec:
+        opts = {"operation": op} if op else {}
+        if more:
+            opts.update(more[0])
+        layers.append(ev0.instantiate(ci, [ArrTok(tag, "g", (5,), tag.lower())], opts, None))
     if reuse is not None:
         layers = reuse
     rec.layers = layers
@@ -71,6 +74,7 @@ def build(tree, layers_spec, limits=None, logx=False, logy=False, loglog=False, 
     y = ArrTok("Y", "s", (5,), "y")
     kwargs = dict(plot=False, logx=logx, logy=logy, loglog=loglog, resolution=resolution, operation=operation)
     kwargs.update(limits or {})
+    kwargs.update(call_opts or {})
     fi = tree.func(H2D)
     ev = ModelEval(tree, fi, {}, hooks)
     out = ev.invoke(fi, [x, y] + layers, kwargs, None)
@@ -195,6 +199,42 @@ def check_hist2d(run, tree, aspects=("limits", "layers")):
                    "x arguments from x only, y from y only; one kernel slot per layer; mean = slot / counts, others the slot; masked where counts == 0",
                    "a layer shows another layer's histogram; 'mean' is not divided by the counts (or 'sum' is); empty bins are not masked; the y range is "
                    "computed from x")
+        except ERR as e:
+            run.unresolved(construct, fi.where(), "cannot fold: %s" % e)
+
+
+def check_hist2d_layer_options(run, tree):
+    """norm / vmin / vmax per layer: a layer that sets them keeps its own, a layer that leaves them unset gets the CALL-level ones - whatever the
+    position of the layers (an earlier layer's options never become the later layers' defaults)"""
+    fi = tree.func(H2D)
+    run.analysed(fi)
+    own = {"norm": "log", "vmin": 1.0, "vmax": 100.0}
+    call = {"norm": "linear", "vmin": 0.5}
+    for label, spec in (("own options first, unset second", [("RHO", None, own), ("TEMP", None)]), ("unset first, own options second", [("RHO", None), ("TEMP", None, own)]),
+                        ("own, unset, unset", [("RHO", None, own), ("TEMP", None), ("PRES", None)])):
+        construct = "%s::layer-options[%s]" % (H2D, label)
+        try:
+            try:
+                rec, out = build(tree, spec, call_opts=dict(call))
+            except (Raised, ProgramRaised) as e:
+                run.violated(construct, fi.where(), "raises %s" % e, "histogram2d with %s" % label)
+                continue
+            rl = out._attrs.get("layers") if isinstance(out, PyObj) else None
+            problems = []
+            if not isinstance(rl, list) or len(rl) != len(spec):
+                problems.append("%r layers returned" % (rl if not isinstance(rl, list) else len(rl),))
+            else:
+                for i, sp in enumerate(spec):
+                    eff = dict(norm=call.get("norm"), vmin=call.get("vmin"), vmax=call.get("vmax"))
+                    if len(sp) > 2:
+                        eff.update(sp[2])
+                    want = ("norm-object", eff["norm"], eff["vmin"], eff["vmax"])
+                    params = rl[i].get("params") if isinstance(rl[i], dict) else None
+                    got = params.get("norm") if isinstance(params, dict) else None
+                    if got != want:
+                        problems.append("layer %d is rendered with %r (required %r)" % (i, got, want))
+            run.ob(construct, not problems, fi.where(), "; ".join(problems[:3]) or "every layer rendered with its own norm/vmin/vmax where set and the call-level ones otherwise",
+                   "the colour scale of one layer is applied to the layers after it")
         except ERR as e:
             run.unresolved(construct, fi.where(), "cannot fold: %s" % e)
 
